@@ -12,7 +12,7 @@ OBLIGATIONS = [
     'C16.squaring_undoes_scaling', 'C16.exp_commute', 'C16.cosh_plus_sinh_is_exp', 'C16.series_loop_invariant',
     'C16.even_series_parity', 'C16.odd_series_parity', 'C16.cos_cosh_on_blade', 'C16.sin_sinh_on_blade',
     'C16.exp_on_scalar_matches_real_exp', 'C16.cos_sin_on_scalar_match_real', 'C16.cosh_sinh_on_scalar_match_real', 'C16.exp_on_blade_matches_closed_form',
-    'C16.l1_submultiplicative', 'C16.l1_is_a_norm', 'C16.exp_truncations_cauchy', 'C16.exp_15_terms_suffice_general', 'C16.exp_scheme_general_partial',
+    'C16.l1_submultiplicative', 'C16.l1_is_a_norm', 'C16.max_coefficient_is_not_submultiplicative', 'C16.exp_truncations_cauchy', 'C16.exp_15_terms_suffice_general', 'C16.exp_scheme_general_partial',
 ]
 PARTIAL = ['on real scalars the closeness IS proved (exp with scaling and squaring within 1e-6 relative for |c| <= 2^18; cos, sin, cosh, sinh within 1e-12 for |c| <= 8: Mathlib remainder bounds; tan, tanh are quotients of these); '
            'for blades it reduces to the same scalar statements for C_N(s), S_N(s); for general multivectors the sum of the absolute coefficients is proved submultiplicative, '
